@@ -163,9 +163,19 @@ static int fake_control(struct upump *upump, int command, va_list args)
     }
 }
 
+/* UPUMP_MGR_RUN (upump_mgr_run): a loop thread asks the manager to run the loop; the harness decides what that means */
+static int (*fake_run_cb)(struct upump_mgr *mgr, struct umutex *mutex, void *opaque);
+static void *fake_run_opaque;
+void fake_upump_set_run_cb(int (*cb)(struct upump_mgr *, struct umutex *, void *), void *opaque) { fake_run_cb = cb; fake_run_opaque = opaque; }
+
 static int fake_mgr_control(struct upump_mgr *mgr, int command, va_list args)
 {
     switch (command) {
+    case UPUMP_MGR_RUN: {
+        struct umutex *mutex = va_arg(args, struct umutex *);
+        if (fake_run_cb == NULL) return UBASE_ERR_UNHANDLED;
+        return fake_run_cb(mgr, mutex, fake_run_opaque);
+    }
     case UPUMP_MGR_VACUUM: upump_common_mgr_vacuum(mgr); return UBASE_ERR_NONE;
     default: return UBASE_ERR_UNHANDLED;
     }
